@@ -17,6 +17,8 @@ enum Kind {
     BotHalf, // half block bottom, transparent foreground
     Blank,   // visible space
     Zero,    // visible NUL with a background colour
+    BoldBright, // full block, bright colour 12 with the bold flag, on 1
+    BoldDark,   // full block, dark colour 4 with the bold flag (displayed as colour 12), on 2
 }
 
 fn kind_char(k: Kind) -> AttributedChar {
@@ -28,6 +30,11 @@ fn kind_char(k: Kind) -> AttributedChar {
         Kind::BotHalf => AttributedChar::new(220 as char, TextAttribute::new(TRANSPARENT, 2)),
         Kind::Blank => AttributedChar::new(' ', TextAttribute::new(7, 0)),
         Kind::Zero => AttributedChar::new('\0', TextAttribute::new(5, 6)),
+        Kind::BoldBright | Kind::BoldDark => {
+            let mut a = if k == Kind::BoldBright { TextAttribute::new(12, 1) } else { TextAttribute::new(4, 2) };
+            a.set_is_bold(true);
+            AttributedChar::new(219 as char, a)
+        }
     }
 }
 
@@ -68,6 +75,7 @@ impl LayerSpec {
 }
 
 fn contents(w: i32, h: i32, rich: bool) -> Vec<Vec<(i32, i32, Kind)>> {
+    // (the bold kinds occur in a pair only: two more single-cell contents would square into the two layer stacks)
     let kinds = [Kind::A, Kind::B, Kind::TopHalf, Kind::BotHalf, Kind::Blank, Kind::Zero, Kind::Invisible];
     let mut v: Vec<Vec<(i32, i32, Kind)>> = vec![vec![]];
     for k in kinds {
@@ -76,7 +84,7 @@ fn contents(w: i32, h: i32, rich: bool) -> Vec<Vec<(i32, i32, Kind)>> {
     if w * h > 1 {
         let (lx, ly) = (w - 1, h - 1);
         let pairs: &[(Kind, Kind)] = if rich {
-            &[(Kind::A, Kind::B), (Kind::TopHalf, Kind::A), (Kind::A, Kind::BotHalf), (Kind::Invisible, Kind::B), (Kind::Blank, Kind::TopHalf), (Kind::Zero, Kind::Zero)]
+            &[(Kind::A, Kind::B), (Kind::TopHalf, Kind::A), (Kind::A, Kind::BotHalf), (Kind::Invisible, Kind::B), (Kind::Blank, Kind::TopHalf), (Kind::Zero, Kind::Zero), (Kind::BoldBright, Kind::BoldDark)]
         } else {
             &[(Kind::A, Kind::B), (Kind::TopHalf, Kind::BotHalf)]
         };
@@ -465,6 +473,32 @@ fn check_stack(buf: &mut Buffer, st: &Stack, ctx: &mut Ctx) {
             return;
         }
     }
+    // L12: what is seen through a transparent colour is a colour the stack beneath displays there: the colours of the result are colours
+    //      of cells of the stack (a bold dark colour counts as the bright one it is drawn with), never a number no layer holds
+    {
+        let mut colours: Vec<u32> = vec![0, 7];
+        for l in specs.iter() {
+            for c in &l.cells {
+                let ch = kind_char(c.2);
+                for col in [ch.attribute.get_foreground(), ch.attribute.get_background()] {
+                    colours.push(col);
+                    if col < 8 {
+                        colours.push(col + 8);
+                    }
+                }
+            }
+        }
+        let w = b.2 - b.0;
+        for (k, o) in base.iter().enumerate() {
+            if o.visible && (!colours.contains(&o.fg) || !colours.contains(&o.bg)) {
+                ctx.violation(
+                    "diff:layers:L12-displayed-colour-held-by-no-layer",
+                    json!({"stack(bottom first)": stack_json(), "position": [b.0 + k as i32 % w, b.1 + k as i32 / w], "shown": format!("{o:?}")}),
+                );
+                return;
+            }
+        }
+    }
     // L5: moving one layer far away changes only positions inside its old (and new) rectangle
     for i in 0..n {
         let mut ls = built.clone();
@@ -672,9 +706,12 @@ fn run_mixed_rows(page: usize, ctx: &mut Ctx) {
         for (row, (fg, bg)) in [(7u32, 0u32), (14, 1), (0, 7)].iter().enumerate() {
             for (i, g) in blank.iter().enumerate() {
                 let x = 3 * i as i32;
-                put(&mut b, x, row as i32, &Cell::new(*g, 12, 2).page(q));
+                // row 0 and 1: the neighbours have other colours; row 2: all three cells share their colours and flags and differ in the
+                // font page only (what a comparison of attributes does not see)
+                let (nf, nb, af, ab) = if row == 2 { (*fg, *bg, *fg, *bg) } else { (12, 2, 3, 4) };
+                put(&mut b, x, row as i32, &Cell::new(*g, nf, nb).page(q));
                 put(&mut b, x + 1, row as i32, &Cell::new(*g, *fg, *bg).page(page));
-                put(&mut b, x + 2, row as i32, &Cell::new(b'A' as u32, 3, 4).page(q));
+                put(&mut b, x + 2, row as i32, &Cell::new(b'A' as u32, af, ab).page(q));
             }
         }
         // the same font once more in slot 7 with every blank glyph made visible in place (its cached checksum still equals the original's)
